@@ -36,6 +36,12 @@ pub enum EncodingError {
     #[error("Invalid key size: expected {expected}, got {actual}")]
     InvalidKeySize { expected: usize, actual: usize },
 
+    #[error("Invalid encoding key count: expected 1..=255, got {0}")]
+    InvalidKeyCount(usize),
+
+    #[error("File size does not fit 40 bits: {0}")]
+    InvalidFileSize(u64),
+
     #[error("ESpec table size doesn't match header")]
     InvalidESpecSize,
 
